@@ -47,8 +47,30 @@ def _reloaded_twin(run, pending):
     tab, pc = pending
     if min(pc.n, pc.m) > 8:
         return
-    how = run.rng.choice(['fromdict', 'fromdict permuted raw=True', 'fromjson bogus stored lattice ignore_lattice=True',
-                          'fromdict of a later todict() after the caller scrambled an earlier one'])
+    how = run.rng.choice(['fromdict', 'fromdict permuted raw=True', 'fromjson permuted raw=True',
+                          'fromjson bogus stored lattice ignore_lattice=True',
+                          'fromdict of a later todict() after the caller scrambled an earlier one',
+                          'fresh context whose names are single characters and their concatenations'])
+    if how.startswith('fresh context'):
+        # names such that a multi-character name is the concatenation of other names of the same kind ('a', 'b', 'ab', ...):
+        # a str is an iterable of its characters, nothing may confuse the two readings
+        import itertools
+        from core import PyCtx
+
+        def names(alphabet, k):
+            out = []
+            for size in (1, 2, 3, 4, 5):
+                for t in itertools.product(alphabet, repeat=size):
+                    out.append(''.join(t))
+                    if len(out) == k:
+                        return out
+            return out
+        with guard(run, 'twin context: ' + how, [pc.line, 'lattice']):
+            twin = PyCtx(tab, names('abc', pc.n), names('xyz', pc.m))
+            twin.reloaded = True
+        run.count('twin context: ' + how)
+        yield tab, twin
+        return
     with guard(run, 'twin context: ' + how, [pc.line, 'lattice']):
         import io
         import json
@@ -59,6 +81,9 @@ def _reloaded_twin(run, pending):
             twin.ctx = concepts.Context.fromdict(dd)
         elif how.startswith('fromdict permuted'):
             twin.ctx = concepts.Context.fromdict(dict(dd, lattice=permute_stored(run.rng, dd['lattice'])), raw=True)
+        elif how.startswith('fromjson permuted'):
+            doc = json.dumps(dict(dd, lattice=[list(map(list, e)) for e in permute_stored(run.rng, dd['lattice'])]))
+            twin.ctx = concepts.Context.fromjson(io.StringIO(doc), raw=True)
         elif how.startswith('fromjson'):
             # a stored lattice that does not belong to the table must not matter when it is ignored: the lattice is computed
             doc = json.dumps(dict(dd, lattice=bogus))
